@@ -34,7 +34,9 @@ CONSTANTS Bnd,          \* boundary, a sequence of symbols from {"b","c","d"}
           Preambles,    \* set of preambles (symbol sequences without line-break+delimiter), <<>> = none
           MaxChunk,     \* receive_data() gets 0..MaxChunk symbols at a time
           Limits,       \* set of [parts |-> max_form_parts, mem |-> max_form_memory_size]  (Unlimited = 99)
-          HoldFix, OpenFix
+          HoldFix, OpenFix,
+          PreFix        \* TRUE: the first delimiter may lack its line break only at the very start of the body (the code);
+                        \* FALSE: anywhere in the preamble (the original: a preamble line "... --boundary" is taken for a delimiter; witness)
 
 VARIABLES form, pre, lim,      \* the scenario (fixed)
           body, pos,           \* encoded body and how much of it has been fed
@@ -82,6 +84,11 @@ MaxOf(S) == CHOOSE x \in S : \A y \in S : x >= y
 Search(s, optLB) ==
   LET hits == {i \in 1..Len(s) : MatchAt(s, i, optLB).s > 0} IN
   IF hits = {} THEN NoMatch ELSE MatchAt(s, MinOf(hits), optLB)
+\* the preamble's regex: (?:\A | LB) "--" boundary ...   (nothing is removed from the buffer before the first delimiter, so \A is the start of the body)
+SearchPre(s) ==
+  LET opt(i) == IF PreFix THEN i = 1 ELSE TRUE
+      hits == {i \in 1..Len(s) : MatchAt(s, i, opt(i)).s > 0} IN
+  IF hits = {} THEN NoMatch ELSE MatchAt(s, MinOf(hits), opt(MinOf(hits)))
 HasDelim(s) == \E i \in 1..Len(s) : HasDelimAt(s, i)
 \* BLANK_LINE_RE = CRLF CRLF | CR CR | LF LF ; returns <<start, end + 1>> or <<0, 0>>
 BlankAt(s, i) == IF i + 3 <= Len(s) /\ SubSeq(s, i, i + 3) = <<"r", "n", "r", "n">> THEN 4
@@ -129,7 +136,7 @@ NeedData == /\ drained' = TRUE
 
 StepPreamble ==
   /\ ~drained /\ result = "" /\ st = "PREAMBLE"
-  /\ LET m == Search(buf, TRUE) IN
+  /\ LET m == SearchPre(buf) IN
      IF m.s > 0 THEN /\ st' = IF m.f THEN "EPILOGUE" ELSE "PART"
                      /\ buf' = Drop(buf, m.e - 1)
                      /\ UNCHANGED <<form, pre, lim, body, pos, drained, cur, curKind, items, nparts, mem, result, maxheld>>
